@@ -170,7 +170,8 @@ pub struct NodeCtx {
     /// dead (continuously since) — harness-side, independent of the detector's own record
     pub dead_grace: u64,
     pub dead_since: BTreeMap<ChitchatId, u64>,
-    pub watch_rx: watch::Receiver<BTreeMap<ChitchatId, NodeState>>,
+    /// `None`: no receiver is kept between reads (every read goes through a fresh accessor call)
+    pub watch_rx: Option<watch::Receiver<BTreeMap<ChitchatId, NodeState>>>,
     _seeds_tx: watch::Sender<HashSet<std::net::SocketAddr>>,
 }
 
@@ -329,9 +330,11 @@ impl Exec {
     pub fn p_node(&mut self, slot: u64) -> String {
         let start = self.start;
         let ctx = self.nodes.get_mut(&slot).unwrap();
-        if ctx.watch_rx.has_changed().unwrap_or(false) {
-            ctx.publishes += 1;
-            let _ = ctx.watch_rx.borrow_and_update();
+        if let Some(rx) = ctx.watch_rx.as_mut() {
+            if rx.has_changed().unwrap_or(false) {
+                ctx.publishes += 1;
+                let _ = rx.borrow_and_update();
+            }
         }
         let cc = &ctx.cc;
         let copies = cc.node_states().iter().map(|(id, ns)| plist("c", [p_id(id), p_ns(ns, start)]));
@@ -341,7 +344,11 @@ impl Exec {
         let mut gcm = verif::cc_gc_memory(cc);
         gcm.sort();
         let prev = verif::cc_previous_live_nodes(cc);
-        let watch_val = ctx.watch_rx.borrow().clone();
+        let counted = ctx.watch_rx.is_some();
+        let watch_val = match &ctx.watch_rx {
+            Some(rx) => rx.borrow().clone(),
+            None => cc.live_nodes_watcher().borrow().clone(),
+        };
         plist(
             "node",
             [
@@ -368,7 +375,7 @@ impl Exec {
                 plist("prev", prev.iter().map(|(id, v)| plist("p", [p_id(id), v.to_string()]))),
                 plist(
                     "watch",
-                    std::iter::once(ctx.publishes.to_string())
+                    std::iter::once(if counted { ctx.publishes.to_string() } else { "-".to_string() })
                         .chain(watch_val.iter().map(|(id, ns)| plist("c", [p_id(id), p_ns(ns, start)]))),
                 ),
             ],
@@ -1087,7 +1094,10 @@ impl Exec {
         // C13: the watch value lists exactly the live members passing the predicate, each snapshot
         // with the member's current max version
         {
-            let held = ctx.watch_rx.borrow().clone();
+            let held = match &ctx.watch_rx {
+                Some(rx) => rx.borrow().clone(),
+                None => ctx.cc.live_nodes_watcher().borrow().clone(),
+            };
             let passes = |ns: &NodeState| match ctx.pred.0.as_str() {
                 "haskey" => ns.contains_key(&ctx.pred.1),
                 "nokey" => !ns.contains_key(&ctx.pred.1),
@@ -1358,7 +1368,7 @@ impl Exec {
                 // them, so reconstruct them from the state for comparison.
                 let init_events: Vec<(ChitchatId, String, String)> = Vec::new();
                 let ctx = NodeCtx { calls: Arc::new(Mutex::new(Vec::new())), handles: BTreeMap::new(), active: BTreeMap::new(), refmap: RefMap::default(), grace, cc, id: id.clone(), events, callbacks, publishes: 0, fd_params: Some((f[0].nat()?, f[1].nat()?, f[4].nat()?)), max_interval: f[3].nat()?, pred: pred_spec.clone(), removed_hb: BTreeMap::new(), dead_grace: f[5].nat()?, dead_since: BTreeMap::new(),
-                    hbtrack: BTreeMap::new(), streak: BTreeMap::new(), watch_rx, _seeds_tx: seeds_tx };
+                    hbtrack: BTreeMap::new(), streak: BTreeMap::new(), watch_rx: Some(watch_rx), _seeds_tx: seeds_tx };
                 self.nodes.insert(slot, ctx);
                 self.resync_ref(slot);
                 self.extend_ledger(slot);
@@ -1663,6 +1673,14 @@ impl Exec {
                         Some(("(nop)".to_string(), "(nop)".to_string()))
                     }
                 }
+            }
+            "watchmode" => {
+                // (watchmode slot fresh): from now on the harness keeps no receiver of the live-members
+                // watch channel of that node between reads
+                let slot = a.first()?.nat()?;
+                let ctx = self.nodes.get_mut(&slot)?;
+                ctx.watch_rx = None;
+                Some((line, "(ok)".to_string()))
             }
             "usend" => {
                 // (usend msg peer|unreach): the real UdpSocket sends; a raw socket observes the wire
